@@ -55,6 +55,38 @@ theorem no_writer_after_close (cfg : Cfg) (s s' : State) :
     rename_i hg
     exact hg.2.1
 
+/-- **put_inside_section** — "batches are queued only while they are the current batch, under the partition mutex":
+once a batch was detached (`pending = some b`) no other event of that partition writer's mutex sections — creating
+the next batch, appending, another detach, a timer branch — is enabled until `qput` has handed b to the queue.  So a
+later batch can never be created, let alone queued, before an earlier detached one.  (The trace monitor
+`putInsideSection` checks the same on every recorded run.) -/
+theorem put_inside_section (cfg : Cfg) (s s' : State) (pw : Nat) (P : PW) (hP : s.pws pw = some P) :
+    (∀ b, step cfg s (.newBatch pw b) = some s' → P.pending = none) ∧
+    (∀ b c i size, step cfg s (.add pw b c i size) = some s' → P.pending = none) ∧
+    (∀ b why size, step cfg s (.detach pw b why size) = some s' → P.pending = none) ∧
+    (∀ b att, step cfg s (.timerFire pw b att) = some s' → P.pending = none) := by
+  refine ⟨?_, ?_, ?_, ?_⟩
+  · intro b hs
+    simp only [step, hP] at hs
+    repeat' split at hs
+    all_goals (first | (cases hs; done) | skip)
+    rename_i hg; exact hg.2.2.1
+  · intro b c i size hs
+    simp only [step, stepAdd, hP] at hs
+    repeat' split at hs
+    all_goals (first | (cases hs; done) | skip)
+    rename_i hg; exact hg.2.2.1
+  · intro b why size hs
+    simp only [step, stepDetach, hP] at hs
+    repeat' split at hs
+    all_goals (first | (cases hs; done) | skip)
+    rename_i hg; exact hg.2.1
+  · intro b att hs
+    simp only [step, hP] at hs
+    repeat' split at hs
+    all_goals (first | (cases hs; done) | skip)
+    rename_i hg; exact hg.1
+
 /-- **copies_are_whole_batches** — an applied produce attempt appends exactly the messages of the batch being
 sent, in batch order, to the log of that batch's topic-partition, and nothing else changes in any log. -/
 theorem copies_are_whole_batches (cfg : Cfg) (s s' : State) (pw : Nat) (tp : TP) (msgs : List Msg) (out : BrOut)
